@@ -9,6 +9,9 @@ import (
 
 	"github.com/els0r/goProbe/v4/cmd/goProbe/config"
 	gpcapture "github.com/els0r/goProbe/v4/pkg/capture"
+	"github.com/els0r/goProbe/v4/pkg/capture/capturetypes"
+	"github.com/els0r/goProbe/v4/pkg/goDB"
+	"github.com/els0r/goProbe/v4/pkg/goDB/encoder/encoders"
 	"github.com/els0r/goProbe/v4/pkg/goDB/engine"
 	"github.com/els0r/goProbe/v4/pkg/query"
 
@@ -37,16 +40,35 @@ type liveCheck struct {
 	q     *model.Query
 	rows  []string
 	err   error
-	snapA []record
-	snapB []record
-	store []record // stored records at that instant
+	snapA map[string][]record // in-memory flows per captured interface before ...
+	snapB map[string][]record // ... and after the live query
+	store map[string][]record // stored records per interface at that instant
+}
+
+// layout29 says which interfaces a C29 scenario captures on and which one exists in the database
+// only (it was captured earlier: a live query over "any" names it although no capture runs on it).
+type layout29 struct {
+	captured []string
+	dbOnly   string         // "" = none; sorts before the captured interfaces
+	ifaceOf  map[int]string // packet tag -> interface it arrives on
+}
+
+func (l layout29) all() []string {
+	var out []string
+	if l.dbOnly != "" {
+		out = append(out, l.dbOnly)
+	}
+	return append(out, l.captured...)
 }
 
 // scenario29 runs one capture scenario; withLive decides whether live queries are issued.
-func scenario29(r *sim.R, pkts [][]pkt, queries []*model.Query, withLive bool) (checks []liveCheck, final []string, v *sim.Violation) {
+func scenario29(r *sim.R, lay layout29, pkts [][]pkt, queries []*model.Query, withLive bool) (checks []liveCheck, final []string, v *sim.Violation) {
 	w := newCWorld(r)
 	defer w.install()()
-	cfg := &config.Config{DB: config.DBConfig{Path: wdb, EncoderType: "lz4"}, Interfaces: config.Ifaces{"eth0": config.DefaultCaptureConfig()}}
+	cfg := &config.Config{DB: config.DBConfig{Path: wdb, EncoderType: "lz4"}, Interfaces: config.Ifaces{}}
+	for _, i := range lay.captured {
+		cfg.Interfaces[i] = config.DefaultCaptureConfig()
+	}
 	done := make(chan struct{}, 1)
 	var mgr *gpcapture.Manager
 	var initErr error
@@ -54,6 +76,14 @@ func scenario29(r *sim.R, pkts [][]pkt, queries []*model.Query, withLive bool) (
 	go func() {
 		defer func() { done <- struct{}{} }()
 		w.register("ctl")
+		if lay.dbOnly != "" {
+			// data of an interface that is not captured any more
+			fm := model.ToAggFlowMap([]model.Flow{{V4: true, Sip: []byte{10, 9, 9, 1}, Dip: []byte{10, 9, 9, 2}, Dport: 443, Proto: 6, C: model.Counters{BR: 100, BS: 200, PR: 1, PS: 2}}})
+			if err := goDB.NewDBWriter(wdb, lay.dbOnly, encoders.EncoderTypeLZ4).Write(fm, capturetypes.CaptureStats{}, time.Now().Unix()-600); err != nil {
+				initErr = err
+				return
+			}
+		}
 		mgr, initErr = gpcapture.InitManager(w.ctx, cfg, gpcapture.WithSourceInitFn(w.sourceInit))
 		if initErr != nil {
 			return
@@ -64,8 +94,8 @@ func scenario29(r *sim.R, pkts [][]pkt, queries []*model.Query, withLive bool) (
 			if d := instants[i%len(instants)] - time.Since(start); d > 0 {
 				time.Sleep(d)
 			}
-			src := w.current("eth0")
 			for _, p := range batch {
+				src := w.current(lay.ifaceOf[p.tag])
 				w.yield("wire inject")
 				src.Inject(p.wire())
 				for src.Pending() > 0 && w.ctx.Err() == nil {
@@ -76,10 +106,14 @@ func scenario29(r *sim.R, pkts [][]pkt, queries []*model.Query, withLive bool) (
 				continue
 			}
 			q := queries[i]
-			lc := liveCheck{at: fmt.Sprintf("t=%v", time.Since(start).Round(time.Second)), q: q}
-			lc.snapA = liveFlows(w.ctx, mgr, "eth0")
-			lc.store, _, _ = w.dbRecords("eth0")
-			a := query.NewArgs(q.QueryType(), "eth0")
+			lc := liveCheck{at: fmt.Sprintf("t=%v", time.Since(start).Round(time.Second)), q: q, snapA: map[string][]record{}, snapB: map[string][]record{}, store: map[string][]record{}}
+			for _, i := range lay.captured {
+				lc.snapA[i] = liveFlows(w.ctx, mgr, i)
+			}
+			for _, i := range lay.all() {
+				lc.store[i], _, _ = w.dbRecords(i)
+			}
+			a := query.NewArgs(q.QueryType(), strings.Join(q.Ifaces, ","))
 			a.Condition = q.CondString()
 			a.First = "1"
 			a.NumResults = 1 << 40
@@ -91,7 +125,9 @@ func scenario29(r *sim.R, pkts [][]pkt, queries []*model.Query, withLive bool) (
 			if res != nil {
 				lc.rows = dbcheck.RowsCanon(res.Rows)
 			}
-			lc.snapB = liveFlows(w.ctx, mgr, "eth0")
+			for _, i := range lay.captured {
+				lc.snapB[i] = liveFlows(w.ctx, mgr, i)
+			}
 			checks = append(checks, lc)
 		}
 		if d := 905*time.Second - time.Since(start); d > 0 {
@@ -108,25 +144,27 @@ func scenario29(r *sim.R, pkts [][]pkt, queries []*model.Query, withLive bool) (
 		return nil, nil, r.Report(&sim.Violation{Clause: "capture-stalls", Signature: "live queries", Detail: stall})
 	}
 	w.teardown(mgr)
-	recs, _, err := w.dbRecords("eth0")
-	if err != nil {
-		return nil, nil, r.Report(&sim.Violation{Clause: "database-unreadable", Signature: "after capture", Detail: err.Error()})
-	}
-	// blocks are numbered in time order: the paired run happens later on the same fake clock
-	order := map[string]int{}
-	var wheres []string
-	for _, rec := range recs {
-		if _, ok := order[rec.where]; !ok {
-			order[rec.where] = 0
-			wheres = append(wheres, rec.where)
+	for _, iface := range lay.captured {
+		recs, _, err := w.dbRecords(iface)
+		if err != nil {
+			return nil, nil, r.Report(&sim.Violation{Clause: "database-unreadable", Signature: "after capture", Detail: err.Error()})
 		}
-	}
-	sort.Strings(wheres)
-	for i, wh := range wheres {
-		order[wh] = i
-	}
-	for _, rec := range recs {
-		final = append(final, fmt.Sprintf("block#%d %s %+v", order[rec.where], rec.key, rec.c))
+		// blocks are numbered in time order: the paired run happens later on the same fake clock
+		order := map[string]int{}
+		var wheres []string
+		for _, rec := range recs {
+			if _, ok := order[rec.where]; !ok {
+				order[rec.where] = 0
+				wheres = append(wheres, rec.where)
+			}
+		}
+		sort.Strings(wheres)
+		for i, wh := range wheres {
+			order[wh] = i
+		}
+		for _, rec := range recs {
+			final = append(final, fmt.Sprintf("%s block#%d %s %+v", iface, order[rec.where], rec.key, rec.c))
+		}
 	}
 	sort.Strings(final)
 	return checks, final, nil
@@ -137,6 +175,14 @@ func scenario29(r *sim.R, pkts [][]pkt, queries []*model.Query, withLive bool) (
 func c29(r *sim.R) *sim.Violation {
 	t := r.T
 	nBatches := 2 + t.Draw(3)
+	// one run in three: two or three captured interfaces and one that only exists in the database
+	lay := layout29{captured: []string{"eth0"}, ifaceOf: map[int]string{}}
+	if t.Draw(3) == 0 {
+		lay.captured = []string{"eth1", "eth2", "eth3"}[:2+t.Draw(2)]
+		if t.Bool() {
+			lay.dbOnly = "eth0"
+		}
+	}
 	convs := []conversation{genConversation(t, true), genConversation(t, true), genConversation(t, true)}
 	var pkts [][]pkt
 	tag := 0
@@ -147,6 +193,8 @@ func c29(r *sim.R) *sim.Violation {
 			ci := t.Draw(len(convs))
 			p := convs[ci].packet(t, seen[ci], tag)
 			p.kind = "ok"
+			// a conversation stays on one interface
+			lay.ifaceOf[tag] = lay.captured[ci%len(lay.captured)]
 			seen[ci]++
 			tag++
 			b = append(b, p)
@@ -161,7 +209,12 @@ func c29(r *sim.R) *sim.Violation {
 	empty.Add("eth0", model.FlowBlock(1, nil, 0))
 	for i := 0; i < nBatches; i++ {
 		q := model.GenQuery(t, empty)
-		q.Time, q.IfaceAttr, q.Ifaces = false, false, []string{"eth0"}
+		q.Time, q.Ifaces = false, lay.all()
+		if len(q.Ifaces) == 1 {
+			q.IfaceAttr = false
+		} else if t.Draw(4) == 0 {
+			q.Ifaces = q.Ifaces[len(q.Ifaces)-1:] // an interface subset
+		}
 		q.First, q.Last = 1, 4102444800
 		if q.Cond != nil {
 			if a, b := q.Cond.Families(); a != b {
@@ -170,14 +223,14 @@ func c29(r *sim.R) *sim.Violation {
 		}
 		queries = append(queries, q)
 	}
-	r.Event("%d batches; queries: %v", nBatches, func() []string {
+	r.Event("captured %v, database only %q; %d batches; queries: %v", lay.captured, lay.dbOnly, nBatches, func() []string {
 		var s []string
 		for _, q := range queries {
 			s = append(s, q.QueryType()+" / "+q.CondString())
 		}
 		return s
 	}())
-	checks, finalWith, v := scenario29(r, pkts, queries, true)
+	checks, finalWith, v := scenario29(r, lay, pkts, queries, true)
 	if v != nil {
 		return v
 	}
@@ -189,8 +242,15 @@ func c29(r *sim.R) *sim.Violation {
 		} else {
 			sig = "attribute subset"
 		}
+		if len(lay.captured) > 1 {
+			sig += ", several interfaces"
+		}
+		nStored := 0 // records on disk of the queried interfaces
+		for _, iface := range lc.q.Ifaces {
+			nStored += len(lc.store[iface])
+		}
 		if lc.err != nil {
-			if len(lc.store) == 0 && strings.Contains(lc.err.Error(), "no interfaces provided") {
+			if nStored == 0 && strings.Contains(lc.err.Error(), "no interfaces provided") {
 				sig = "interface captured but without data on disk yet"
 			}
 			if v := r.Report(&sim.Violation{Clause: "live-query-fails", Signature: sig, Detail: fmt.Sprintf("%s %s: %v", lc.at, describe29(lc.q), lc.err)}); v != nil {
@@ -204,39 +264,62 @@ func c29(r *sim.R) *sim.Violation {
 			continue
 		}
 		m := model.NewStore()
-		var flows []model.Flow
-		for _, rec := range lc.store {
-			flows = append(flows, recToFlow(rec))
+		onlyStored := model.NewStore()
+		nLive := 0
+		for _, iface := range lay.all() {
+			var flows []model.Flow
+			for _, rec := range lc.store[iface] {
+				flows = append(flows, recToFlow(rec))
+			}
+			if len(flows) > 0 {
+				m.Add(iface, model.Block{TS: 100, Flows: flows})
+				onlyStored.Add(iface, model.Block{TS: 100, Flows: flows})
+			}
+			var live []model.Flow
+			for _, rec := range lc.snapA[iface] {
+				live = append(live, recToFlow(rec))
+			}
+			if len(live) > 0 {
+				m.Add(iface, model.Block{TS: 200, Flows: live})
+				nLive += len(live)
+			}
 		}
-		m.Add("eth0", model.Block{TS: 100, Flows: flows})
-		var live []model.Flow
-		for _, rec := range lc.snapA {
-			live = append(live, recToFlow(rec))
-		}
-		m.Add("eth0", model.Block{TS: 200, Flows: live})
-		if len(live) > 0 {
+		if nLive > 0 {
 			r.Probe("live_query_with_flows_in_memory")
+		}
+		if lay.dbOnly != "" && nLive > 0 {
+			r.Probe("live_query_names_an_interface_without_capture")
 		}
 		want, _ := lc.q.Eval(m, false)
 		if d := dbcheck.DiffRows(want, lc.rows); d != "" {
-			onlyStored := model.NewStore()
-			onlyStored.Add("eth0", model.Block{TS: 100, Flows: flows})
+			// an interface that is captured but has nothing on disk yet cannot be queried at all:
+			// the known finding above; with several interfaces its in-memory flows are just missing
+			missingOnDisk := false
+			for _, iface := range lc.q.Ifaces {
+				if len(lc.store[iface]) == 0 && len(lc.snapA[iface]) > 0 {
+					missingOnDisk = true
+				}
+			}
 			ws, _ := lc.q.Eval(onlyStored, false)
 			clause := "live-result-differs"
-			if dbcheck.DiffRows(ws, lc.rows) == "" && len(live) > 0 {
+			if dbcheck.DiffRows(ws, lc.rows) == "" && nLive > 0 {
 				clause = "in-memory-flows-missing"
 			}
 			if strings.Contains(d, "32.1.13.184") || strings.Contains(d, "|0.0.0.0|") {
 				continue // C08's rendering finding
 			}
+			if missingOnDisk {
+				sig = "interface captured but without data on disk yet"
+				clause = "live-query-fails"
+			}
 			if v := r.Report(&sim.Violation{Clause: clause, Signature: sig,
-				Detail: fmt.Sprintf("%s %s\nin memory: %v\nstored: %d records\n%s", lc.at, describe29(lc.q), lc.snapA, len(lc.store), d)}); v != nil {
+				Detail: fmt.Sprintf("%s %s\nin memory: %v\nstored: %d records\n%s", lc.at, describe29(lc.q), lc.snapA, nStored, d)}); v != nil {
 				return v
 			}
 		}
 	}
 	// paired run without the live queries: same database content at the end
-	_, finalWithout, v := scenario29(r, pkts, queries, false)
+	_, finalWithout, v := scenario29(r, lay, pkts, queries, false)
 	if v != nil {
 		return v
 	}
